@@ -1,0 +1,41 @@
+//go:build verif
+
+/*
+Copyright The ORAS Authors.
+Licensed under the Apache License, Version 2.0 (the "License");
+you may not use this file except in compliance with the License.
+You may obtain a copy of the License at
+
+http://www.apache.org/licenses/LICENSE-2.0
+
+Unless required by applicable law or agreed to in writing, software
+distributed under the License is distributed on an "AS IS" BASIS,
+WITHOUT WARRANTIES OR CONDITIONS OF ANY KIND, either express or implied.
+See the License for the specific language governing permissions and
+limitations under the License.
+*/
+
+// Package verifhook provides named scheduling points for the verification
+// harness. Without the build tag "verif" Point is an empty function.
+package verifhook
+
+import "sync/atomic"
+
+var handler atomic.Pointer[func(string)]
+
+// Point marks a scheduling point: the installed handler, if any, is called
+// with the point's name and may park the calling goroutine.
+func Point(name string) {
+	if h := handler.Load(); h != nil {
+		(*h)(name)
+	}
+}
+
+// Set installs the handler called at every Point; nil removes it.
+func Set(h func(name string)) {
+	if h == nil {
+		handler.Store(nil)
+		return
+	}
+	handler.Store(&h)
+}
